@@ -117,8 +117,10 @@ pub fn build_env(cfg: &EnvCfg) -> Env {
     if let Some(keys) = &cfg.keys {
         b.set_auth(RecAuth { keys: Arc::new(keys.iter().cloned().collect()), log: log.clone(), deny_code: cfg.provider_denies.clone() });
     }
-    if let Some(mode) = &cfg.access {
-        b.set_access(RecAccess { mode: mode.clone(), log: log.clone() });
+    match &cfg.access {
+        Some(AccessMode::TraitDefaults) => b.set_access(crate::dto::DefaultsOnlyAccess),
+        Some(mode) => b.set_access(RecAccess { mode: mode.clone(), log: log.clone() }),
+        None => {}
     }
     if cfg.route != RouteMode::None {
         b.set_route(RecRoute { mode: cfg.route.clone(), log: log.clone() });
